@@ -43,6 +43,9 @@ type Link struct {
 	Jitter      time.Duration
 	Frag        bool // deliver writes in tape-sized pieces
 	HoleFor     time.Duration // how long a black-holed connection stays up before it is reset
+	// Coalesce: a Read returns everything that has arrived (several writes in one read), as a
+	// TCP socket does; otherwise a Read returns data of one write only.
+	Coalesce bool
 	// SlowWrite, if set, returns how long a Write call stays blocked after the bytes have been
 	// handed to the link (a loaded sender: the remote side may react before Write returns).
 	SlowWrite func(side int) time.Duration
@@ -129,11 +132,19 @@ func (c *Conn) Read(p []byte) (int, error) {
 			return 0, errReset
 		}
 		if len(c.in.q) > 0 && c.in.q[0].at <= now {
-			ch := &c.in.q[0]
-			n := copy(p, ch.data)
-			ch.data = ch.data[n:]
-			if len(ch.data) == 0 {
-				c.in.q = c.in.q[1:]
+			n := 0
+			for len(c.in.q) > 0 && c.in.q[0].at <= now && n < len(p) {
+				ch := &c.in.q[0]
+				k := copy(p[n:], ch.data)
+				n += k
+				ch.data = ch.data[k:]
+				if len(ch.data) == 0 {
+					c.in.q = c.in.q[1:]
+				}
+				if !c.link.Coalesce {
+					break // one write, one read (what a test over a pipe sees)
+				}
+				// like a TCP socket: everything that has arrived is handed over in one read
 			}
 			c.in.consumed += uint64(n)
 			c.ReadLog = append(c.ReadLog, ReadMark{At: now, Off: c.in.consumed})
